@@ -413,4 +413,11 @@ example : okBytes (TextStage.run exR3 { inner := exText } [1, 1, 7, 2]).1 = [10,
   decide
 example := C18_stage_split_independent exR3 exR3_stream exText exSched
 
+/-- (tie to the source) the staging buffer, whose size is regenerated from `text_reader.rs` on every run,
+    has room for the largest piece the decoder writes in one go when it flushes at the end of the stream
+    (two replacement characters, 6 bytes, for ISO-2022-JP — `encoding_rs`, third-party, see DESIGN §5),
+    and a read is served from it exactly when it has less room than that buffer. -/
+theorem C18_stage_cap : 6 ≤ stageCap ∧ stageMin = stageCap ∧ stageCap = Consts.textStageCap := by
+  decide
+
 end Atto
